@@ -17,14 +17,17 @@ theorem pow_window_unique (N T q q' : Nat) (hN : 2 ≤ N) (h1 : N ^ q ≤ T) (h2
   omega
 
 /-- `with_base`'s precision is the documented maximum `max {q | NewB^q ≤ B^p}` in all three branches
-    (`p·n` when `B = NewB^n`, `p / n` when `NewB = B^n`, the exact integer logarithm otherwise) -/
-theorem withBasePrecision_eq_spec (W B NewB p : Nat) (hB : 1 ≤ B) (hN : 2 ≤ NewB) :
+    (`p·n` when `B = NewB^n`, `p / n` when `NewB = B^n`, the exact integer logarithm otherwise) — as long as
+    `p·n` is a `usize` (beyond that the model requires saturation, builder-text's finding on the code's overflow) -/
+theorem withBasePrecision_eq_spec (W B NewB p : Nat) (hB : 1 ≤ B) (hN : 2 ≤ NewB)
+    (hp : p * ilogExact B NewB ≤ 2 ^ 64 - 1) :
     withBasePrecision W B NewB p = withBasePrecisionSpec B NewB p := by
   obtain ⟨s1, s2⟩ := withBasePrecisionSpec_max B NewB p hB hN
   unfold withBasePrecision
   simp only
   by_cases hd : ilogExact B NewB > 1
   · simp only [hd, if_true]
+    rw [Nat.min_eq_left hp]
     have hb : B = NewB ^ ilogExact B NewB := ilogExact_spec B NewB _ rfl (by omega)
     generalize ilogExact B NewB = n at *
     apply pow_window_unique NewB (B ^ p) _ _ hN _ _ s1 s2
